@@ -2,7 +2,7 @@ import Spydr.IR.NamesLemmas2
 namespace Spydr.Names
 
 theorem dropNs_nsinv (s : N) (e : El) (h : NsInv s) : NsInv (s.dropNs e) := by
-  obtain ⟨h1,h2,h3,h4⟩ := h
+  obtain ⟨h1,h2,h3,h4,h5⟩ := h
   simp only [N.dropNs]
   ns_tac2
 
